@@ -5,11 +5,11 @@ from tools import lat, vlib
 
 
 class C01(vlib.Spec):
-    model_vo = ["theories/Lattice/Univ.vo"]
+    model_vo = ["theories/Lattice/Univ.vo", "theories/Lattice/Point.vo"]
     props_vo = "theories/Props/C01.vo"
-    theorems = ["C01_laws", "C01_congruence", "C01_dom_needs_total_refuted"]
+    theorems = ["C01_laws", "C01_congruence", "C01_dom_needs_total_refuted", "C01_point"]
     crate, group, binary = "h_lattices", "light", "h_lattices"
-    imports = "From HV Require Import Lattice.Univ."
+    imports = "From HV Require Import Lattice.Univ Lattice.Point."
     pred = "C01_holds_b"
     trusted_base = ["coqc 8.16.1 kernel (vm_compute used for case evaluation only)",
                     "hand-written Gallina model coq/theories/Lattice/{Model,Univ}.v",
@@ -27,22 +27,41 @@ class C01(vlib.Spec):
     def pick(self, t):
         return True
 
+    points = True  # C01 also covers the point lattice (merge of inequal values panics)
+
     def gen(self, rng, tier, n):
-        return lat.gen_triples(rng, self.types(), tier, n, self.pick)
+        cases = lat.gen_triples(rng, self.types(), tier, n, self.pick)
+        if self.points:
+            for _ in range(40):
+                a = rng.below(4)
+                b = a if rng.chance(1, 2) else rng.below(4)
+                cases.append({"k": "point", "a": a, "b": b, "src": "rnd"})
+        return cases
 
     def n_cases(self, tier):
         return 1600 if tier == "quick" else 12000
 
     def to_coq(self, case, res):
+        if case["k"] == "point":
+            if "eq" not in res:
+                return 3
+            m = res["merge"]
+            impl = "None" if m is None else "(Some (%d, %s))" % (m[0], "true" if m[1] else "false")
+            ok_cmp = (res["cmp"] == "Eq") if case["a"] == case["b"] else (res["cmp"] is None)
+            return "(chk_point %d %d %s)" % (case["a"], case["b"], impl) if ok_cmp else 3
         # DomPair over a key lattice that is not totally ordered is outside C01's statement:
         # such types are still compared with the model (bit 0) but the law predicate is off
         pred = self.pred if lat.key_total(lat.parse_type(case["ty"])) else "Ctrue_b"
         return lat.triple_term(pred, case, res)
 
     def shrink(self, case):
+        if case["k"] != "triple":
+            return []
         return lat.shrink_triple(case)
 
     def nontrivial(self, case, res):
+        if case["k"] == "point":
+            return case["a"] != case["b"]
         if "ab" not in res:
             return True
         return not (case["a"] == case["b"] == case["c"]) and (
